@@ -5,7 +5,12 @@ result (positional and keyword) and by sympy substitution, and compare with oper
 operands; every blade the symbolic simplification dropped must have coefficient 0 numerically; argument
 binding of MultiVector.__call__ (positional = free symbols in name order, keywords by name, a foreign
 keyword must not be bound silently).  The theorem side is the naturality of the model operators under
-the evaluation homomorphism and the soundness of the zero filter (Props/C12.v)."""
+the evaluation homomorphism and the soundness of the zero filter (Props/C12.v).
+Binding stream (in-Coq correspondence with Model/Call.v, whose call provably binds positionals in name order and
+keywords by name): random multivectors with integer-polynomial coefficients in randomly named symbols, called
+positionally, by keywords in random order (with ignored extra keywords), and malformed (too few / too many / no
+positionals, missing or foreign keyword, both kinds): value or exception class against the model, and the
+values against an independent evaluation (python sorted + sympy subs)."""
 import warnings
 from fractions import Fraction
 import kv, algs, opcorr as oc
@@ -14,9 +19,16 @@ RULE = ('[symbols are named from a pool mixing case, digits and underscores; nor
         'sum x+x (same blades, same symbols) is called on the same algebra and then x again] operators {gp, op, ip, lc, rc, sp, cp, acp, rp, add, sub, sw, proj, neg, reverse, involute, conjugate, hodge, normsq, inv, div} '
         'x random key patterns (d <= 3, random signatures) x random symbolic/numeric partitions x one random rational assignment; '
         'substitution by call (positional, keyword) and by subs.  Non-trivial = at least one symbolic coefficient and a non-empty result; '
-        'distinct = distinct (algebra, operator, keys, partition).')
-TRUSTED = ['sympy.simplify(sympy.expand(v)) returns 0 only for identically-zero expressions (not modelled)', 'sympy substitution and Rational arithmetic']
-ASSUMPTIONS = ['rational operators are evaluated away from poles (assignments making a denominator vanish are skipped)',
+        'distinct = distinct (algebra, operator, keys, partition).  '
+        'Binding stream: random key lists (d <= 3, any order) x 1-5 symbols named from a pool mixing case, digits, underscores, prefixes of one '
+        'another and non-ASCII letters x coefficients = random expression trees (depth <= 3: symbol, integer, +, -, *, unary minus; some purely numeric) '
+        'x calls {positional, keywords in random order, keywords + extra foreign keyword, too few, too many, none, missing keyword, missing + foreign / '
+        'near-miss keyword, both kinds}; non-trivial = at least 2 free symbols; distinct = distinct (keys, coefficients, call).')
+TRUSTED = ['the printing of a sympy polynomial expression into the body of the generated function (LambdaPrinter, cse) - sampled by the binding stream, not modelled',
+           'sympy.simplify(sympy.expand(v)) returns 0 only for identically-zero expressions (not modelled)', 'sympy substitution and Rational arithmetic']
+ASSUMPTIONS = ['distinct sympy symbols have distinct names (two symbols with one name and different assumptions are outside Model/Call.v); '
+               'names are python identifiers that are not keywords',
+               'rational operators are evaluated away from poles (assignments making a denominator vanish are skipped)',
                'one random rational point per case stands for all assignments (the generated functions are rational in the symbols)']
 
 BIN = ['gp', 'op', 'ip', 'lc', 'rc', 'sp', 'cp', 'acp', 'rp', 'add', 'sub', 'sw', 'proj', 'div']
@@ -217,6 +229,199 @@ def run(R, tier):
     r = m(c=5, a=2, b=3)
     if [sympy.nsimplify(v) for v in r.values()] != [4, 6, 3]:
         viol('call-keyword-binding', f'mv(...)(c=5, a=2, b=3) = {r}')
+    binding_stream(R, tier)
+
+
+# ----------------------------------------------------------------------------- the binding stream (Model/Call.v)
+CALL_NAMES = NAMES + ['A', 'aa', 'ab', 'a_', '_a', 'a0', 'a2', 'a10', 'x', 'x_1', 'xX', 'xx', 'z', 'Z', '__', '_1', 'lam', 'Lam', 'α', 'Ω', 'été']
+
+
+def _sname(s):
+    return kv.natlist(ord(c) for c in s)
+
+
+def _sx(t):
+    if t[0] == 'v':
+        return f'(SVar {_sname(t[1])})'
+    if t[0] == 'c':
+        return f'(SConst {kv.Z(t[1])})'
+    if t[0] == 'n':
+        return f'(SNeg {_sx(t[1])})'
+    return '(%s %s %s)' % ({'+': 'SAdd', '-': 'SSub', '*': 'SMul'}[t[0]], _sx(t[1]), _sx(t[2]))
+
+
+def _tree_names(t, acc):
+    if t[0] == 'v':
+        acc.add(t[1])
+    elif t[0] != 'c':
+        for c in t[1:]:
+            _tree_names(c, acc)
+    return acc
+
+
+def _tree_of_sympy(e):
+    """the expression tree of a sympy polynomial expression with integer coefficients (what the generated function prints)"""
+    import functools
+    if e.is_Symbol:
+        return ('v', e.name)
+    if e.is_Integer:
+        return ('c', int(e))
+    if e.is_Add or e.is_Mul:
+        return functools.reduce(lambda a, b: ('+' if e.is_Add else '*', a, b), [_tree_of_sympy(a) for a in e.args])
+    if e.is_Pow and e.exp.is_Integer and int(e.exp) > 0:
+        b = _tree_of_sympy(e.base)
+        return functools.reduce(lambda a, _: ('*', a, b), range(int(e.exp) - 1), b)
+    raise ValueError(f'not a polynomial expression: {e!r}')
+
+
+def binding_stream(R, tier):
+    import sympy
+    from kingdon import MultiVector
+    rng = R.rng
+    cases = []
+    RES = 'res_eqb (list_eqb (pair_eqb Z.eqb Z.eqb))'
+
+    def rand_tree(names, depth):
+        if depth == 0 or rng.random() < 0.25:
+            return ('v', rng.choice(names)) if names and rng.random() < 0.7 else ('c', rng.randint(-4, 4))
+        k = rng.choice('++-**n')
+        if k == 'n':
+            return ('n', rand_tree(names, depth - 1))
+        return (k, rand_tree(names, depth - 1), rand_tree(names, depth - 1))
+
+    def to_sympy(t, syms):
+        if t[0] == 'v':
+            return syms[t[1]]
+        if t[0] == 'c':
+            return sympy.Integer(t[1])
+        if t[0] == 'n':
+            return -to_sympy(t[1], syms)
+        a, b = to_sympy(t[1], syms), to_sympy(t[2], syms)
+        return a + b if t[0] == '+' else a - b if t[0] == '-' else a * b
+
+    n_mv = 70 if tier == 'quick' else 1500
+    for it in range(n_mv):
+        d = rng.choice((1, 2, 3))
+        spec = {'sig': [rng.choice((1, 1, -1, 0)) for _ in range(d)]}
+        alg = algs.make_impl(spec)
+        canon = list(alg.canon2bin.values())
+        ks = rng.sample(canon, rng.randint(1, min(len(canon), 4)))
+        pool = rng.sample(CALL_NAMES, rng.choice((0, 1, 2, 3, 3, 4, 5)))
+        if pool and rng.random() < 0.3:                  # names that are prefixes / case variants of one another
+            base = rng.choice(pool)
+            pool += [nm for nm in (base + '_', base + '0', base.swapcase(), base + base) if nm not in pool and nm.isidentifier()][:rng.randint(1, 2)]
+        syms = {nm: sympy.Symbol(nm) for nm in pool}
+        values, trees = [], []
+        for k in ks:
+            t = rand_tree(pool, rng.randint(0, 3))
+            v = to_sympy(t, syms)
+            if v.is_Integer and rng.random() < 0.5:
+                v = int(v)                               # a python number: no free_symbols attribute
+                t = ('c', v)
+            elif {s.name for s in v.free_symbols} != _tree_names(t, set()) or rng.random() < 0.5:
+                t = _tree_of_sympy(v)                    # sympy simplified on construction: the tree of what is stored
+            values.append(v); trees.append(t)
+        mvx = MultiVector.fromkeysvalues(alg, tuple(ks), list(values))
+        names = sorted({nm for t in trees for nm in _tree_names(t, set())})     # python's order on str
+        if {s.name for s in mvx.free_symbols} != set(names):
+            raise kv.MachineryError(f'binding stream: names of the expression trees {names} != free symbols {mvx.free_symbols}')
+        mvdef = f'c12m_{it}'
+        defs = [f'Definition {mvdef} : mv sexpr := {kv.blist(kv.pair(kv.Z(k), _sx(t)) for k, t in zip(ks, trees))}.']
+        n = len(names)
+        R.count(f'binding: free symbols={n}')
+        assign = {nm: rng.randint(-6, 6) for nm in names}
+        foreign = rng.choice(['zz_foreign', '_', 'q9'] + [nm + '_' for nm in names[:1]] + [nm.swapcase() for nm in names[:1]] + [nm[:-1] or 'w' for nm in names[:1]])
+        if foreign in names:
+            foreign = 'zz_foreign'
+        kinds = ['positional', 'keywords', 'keywords-extra', 'too-few', 'too-many', 'no-arguments', 'missing-keyword', 'missing-and-foreign', 'both-kinds']
+        for kind in kinds:
+            args, kw = [], []
+            if kind == 'positional':
+                args = [assign[nm] for nm in names]
+            elif kind in ('keywords', 'keywords-extra'):
+                kw = [(nm, assign[nm]) for nm in names]
+                if kind == 'keywords-extra':
+                    kw.append((foreign, rng.randint(-6, 6)))
+                rng.shuffle(kw)
+                if not kw:
+                    continue
+            elif kind == 'too-few':
+                if n == 0:
+                    continue
+                args = [rng.randint(-6, 6) for _ in range(rng.randint(1, n) - 1)]
+                if not args:
+                    continue                              # = no-arguments
+            elif kind == 'too-many':
+                args = [rng.randint(-6, 6) for _ in range(n + rng.randint(1, 2))]
+            elif kind in ('missing-keyword', 'missing-and-foreign'):
+                if n == 0:
+                    continue
+                drop = rng.choice(names)
+                kw = [(nm, assign[nm]) for nm in names if nm != drop]
+                if kind == 'missing-and-foreign':
+                    kw.append((foreign, assign[drop]))    # same COUNT as the free symbols: must not be bound by position
+                rng.shuffle(kw)
+                if not kw:
+                    continue                              # = no-arguments
+            elif kind == 'both-kinds':
+                args = [rng.randint(-6, 6) for _ in range(rng.randint(1, 2))]
+                kw = [(rng.choice(names + [foreign]), rng.randint(-6, 6))]
+            R.count('binding: ' + kind)
+            try:
+                r = mvx(*args, **dict(kw))
+                got = ('ok', [(int(k), v) for k, v in zip(r.keys(), r.values())])
+            except Exception as e:  # noqa
+                got = ('err', e)
+            desc = (f'MultiVector(keys={tuple(ks)}, values={[str(v) for v in values]}) in Algebra({algs.describe(spec)}) called with '
+                    f'args={args}, keywords={dict(kw)} (free symbols in name order: {names})')
+            rep = dict(algebra=spec, keys=list(ks), values=[str(v) for v in values], args=args, keywords=kw, kind=kind)
+            R.case(('binding', kind, tuple(ks), tuple(str(v) for v in values), tuple(args), tuple(kw)), n >= 2,
+                   sample={'kind': kind, 'keys': list(ks), 'values': [str(v) for v in values], 'free symbols in name order': names, 'args': args,
+                           'keywords': [list(p) for p in kw], 'result': str(got[1])[:200]})
+            # ---- direct oracle (independent of the model): python's sorted + sympy substitution
+            env = None
+            if not (args and kw):
+                if n == 0:
+                    env = {}
+                elif kw and all(nm in dict(kw) for nm in names):
+                    env = {nm: dict(kw)[nm] for nm in names}
+                elif args and not kw and len(args) == n:
+                    env = dict(zip(names, args))
+            if env is not None:
+                want = [(int(k), int(sympy.sympify(v).subs({syms[nm]: sympy.Integer(a) for nm, a in env.items()}))) for k, v in zip(ks, values)]
+                clause = 'call-positional-order' if args else 'call-keyword-binding' if kw else 'call-without-symbols'
+                if got[0] != 'ok':
+                    R.violation({'clause': 'call-raises'}, rep, f'call-raises: {desc} raised {type(got[1]).__name__}: {got[1]}')
+                    continue
+                try:
+                    val = [(k, int(v)) for k, v in got[1]]
+                except Exception:  # noqa
+                    val = got[1]
+                if val != want:
+                    R.violation({'clause': clause}, rep, f'{clause}: {desc} returned {got[1]}, binding the arguments as the property demands gives {want}')
+                    continue
+            elif got[0] == 'ok':
+                clause = 'call-foreign-keyword' if kind == 'missing-and-foreign' else 'call-missing-keyword' if kind == 'missing-keyword' else 'call-arity'
+                R.violation({'clause': clause}, rep, f'{clause}: {desc} returned {got[1]} instead of raising: the arguments cannot be bound to the free symbols')
+                continue
+            # ---- the model, evaluated in Coq
+            call = f'call Zops (fun z => z) {mvdef} {kv.zlist(args)} {kv.blist(kv.pair(_sname(nm), kv.Z(a)) for nm, a in kw)}'
+            if got[0] == 'ok':
+                try:
+                    expect = 'Ok ' + kv.blist(kv.pair(kv.Z(k), kv.Z(int(v))) for k, v in got[1])
+                except Exception:  # noqa
+                    R.violation({'clause': 'call-not-a-number'}, rep, f'call-not-a-number: {desc} returned {got[1]}')
+                    continue
+            else:
+                expect = oc.err_term(got[1])
+            cases.append({'check': f'{RES} ({call}) ({expect})', 'show': f'({call}, sorted_names (free_symbols {mvdef}))', 'defs': defs,
+                          'meta': dict(rep, desc=desc, got=str(got[1])[:300], kind=kind)})
+    bad, shown = kv.run_cases('C12call', cases, imports='Model.All Model.Call')
+    for i in bad:
+        m = cases[i]['meta']
+        R.violation({'clause': 'call-model-' + m['kind']}, {k: m[k] for k in ('algebra', 'keys', 'values', 'args', 'keywords', 'kind')},
+                    f'call-model-{m["kind"]}: {m["desc"]}: the implementation gives {m["got"]}, Model/Call.v (which provably binds positional arguments '
+                    f'in name order and keywords by name) gives {shown.get(i, "<not shown>")}')
 
 
 REPLAY_BY_RERUN = True      # inputs derive from the seed recorded in the replay file: the recorded run is regenerated
